@@ -185,7 +185,7 @@ theorem rollback_unreachable (m : Mem) (mu : Mutation) (hwf : mu.WF) (h : check 
   by_cases h1 : mu.type = tPut; · simp [h1]
   by_cases h2 : mu.type = tDelete; · simp [h2, tags]
   by_cases h3 : mu.type = tAppend
-  · have : mu.value ∉ (m mu.key).children := by
+  · have : mu.value ∉ (m.get mu.key).children := by
       intro hc; simp [h3, hc] at h
     simp [h3, this, tags]
   by_cases h4 : mu.type = tRemove; · simp [h4, tags]
@@ -219,7 +219,7 @@ theorem mem_is_spec (hist : List Mutation) :
 
 def valAt (r : Except Err Mem) (k : Bytes) : Option Bytes :=
   match r with
-  | .ok m => some (m k).val
+  | .ok m => some (m.get k).val
   | .error _ => none
 
 def reuseWitness : List Mutation :=
@@ -245,8 +245,8 @@ def exHist : List Mutation :=
 
 example : (submit (submit Store.init exHist[0]).1 exHist[1]).2 = some .conflict := by decide
 example : (runHist Store.init exHist).log.length = 5 := by decide
-example : ((runHist Store.init exHist).mem [1]).children = [[8]] ∧ ((runHist Store.init exHist).mem [1]).val = [4]
-    ∧ ((runHist Store.init exHist).mem [2]).val = [] := by decide
+example : ((runHist Store.init exHist).mem.get [1]).children = [[8]] ∧ ((runHist Store.init exHist).mem.get [1]).val = [4]
+    ∧ ((runHist Store.init exHist).mem.get [2]).val = [] := by decide
 example : ∀ mu ∈ exHist, mu.WF := by decide
 example : (runOps Store.init [.submit exHist[0], .restart, .submit exHist[1], .restart, .restart, .submit exHist[2]]).toOption.map
     (fun s => (s.log.length, s.counter)) = some (2, 3) := by decide
